@@ -20,6 +20,9 @@ LEVEL_TEXT = ("TLC model-checks the TLA+ specification (invariants and action pr
               "real object with full-projection comparison, and traces recorded from the real code are validated by TLC.")
 
 
+MODV = ["none", "smaller", "equal", "larger"]
+
+
 def bc(**kw):
     """Constants of Book.tla with defaults (3 grid prices x 2 volumes x both sides x limit/market)."""
     c = dict(MaxPrice=MAXPRICE, NLevels=4, Tick=1, Trading0=True, Ops=["cap", "cancel"], Dts=[1],
@@ -71,6 +74,10 @@ def c01(tier, seed):
     # the specification itself: declarative priority clauses hold on the operational matching engine
     book_mc(ck, "mc_api", Ops=["cap", "create", "place", "cancel", "event", "settime"], Dts=[0, 1],
             Prices=[10, 11], MaxOrders=3, MaxOps=3 if q else 4, timeout=300 if q else 900)
+    # deep random walks of the all-actions model (up to 40 calls, 12 orders, 4 prices x 3 volumes), every clause on every state
+    ck.mc_sim("mc_walks", "Book", bc(Ops=["cap", "create", "place", "cancel", "modify", "event", "settime", "enable", "disable", "resettv", "reload"],
+                                      Dts=[0, 1], Prices=[10, 11, 12, 13], Vols=[1, 2, 3], ModPrices=[-1, 10, 12], ModVols=MODV, MaxOrders=12, MaxOps=40),
+              invariants=ALL_INV, properties=ALL_ACT, num=12 if q else 300, depth=41, timeout=120 if q else 900)
     # every history of create-and-place / cancel over 3 prices x 2 volumes x 2 sides x limit/market
     book_gen(ck, "gen_cap_cancel", Ops=["cap", "cancel"], MaxOrders=3 if q else 4, MaxOps=4 if q else 6,
              need=("has_trade", "sweep_two_levels", "resting_partially_filled_or_resized", "cancelled_order"),
@@ -87,7 +94,6 @@ def c01(tier, seed):
                      ("gen_cap_cancel.has_trade", "gen_split_api.has_trade", "rand.events_with_trades"))
 
 
-MODV = ["none", "smaller", "equal", "larger"]
 RULE = ("histories: every path of the bounded generator configs (one TLC state = one history, every intermediate state "
         "compared) plus seeded random runs recorded from the real code; non-trivial = ")
 
@@ -141,6 +147,10 @@ def c04(tier, seed):
     ops = ["cap", "create", "place", "cancel", "modify", "event", "settime"]
     book_mc(ck, "mc_lifecycle", inv=inv, act=act, Ops=ops + ["disable", "enable"], Dts=[0, 1], Prices=[10], Vols=[2] if q else [1, 2],
             ModPrices=[-1, 10], ModVols=MODV, MaxOrders=2, MaxOps=4 if q else 5, timeout=300 if q else 1200)
+    # liveness-style sanity under fairness, no state constraint: with cancel requests weakly fair per order, every order that is
+    # ever active reaches a terminal status and stays there, and the book quiesces (BookLive.tla)
+    ck.mc("mc_liveness", "BookLive", dict(MaxPrice=MAXPRICE, Tick=1, MaxOrders=3 if q else 4, Prices=[10, 11], Vols=[1, 2], Sides=["B", "A"], Kinds=["L", "M"]),
+          invariants=(), properties=("Progress", "Final", "Quiesce"), constraint=None, spec=("SPECIFICATION Spec",), timeout=300 if q else 1200)
     # every request against every order in every status (trading on: New/Active/Filled/Cancelled)
     book_gen(ck, "gen_requests", cfg=GEN, Ops=ops, Dts=[1], Prices=[10], Vols=[2] if q else [1, 2], ModPrices=[-1, 10], ModVols=MODV,
              MaxOrders=2, MaxOps=4 if q else 5, need=("cancelled_order", "unplaced_order", "has_trade"), timeout=300 if q else 1500)
@@ -221,12 +231,17 @@ def c07(tier, seed):
     book_gen(ck, "gen_reload", Ops=["cap", "cancel", "modify", "reload"], Prices=[10, 11], Vols=[1, 2], Kinds=["L", "M"],
              ModPrices=[-1, 11], ModVols=["smaller", "larger"], MaxOrders=3, MaxOps=4, trunc_every=40 if q else 4,
              need=("op_reload", "has_trade", "cancelled_order", "resting_partially_filled_or_resized"), timeout=300 if q else 1500)
+    # the traded-volume counter after a reset is part of the snapshot (it is not derivable from the trade log)
+    book_gen(ck, "gen_reload_resettv", cfg=GEN, Ops=["cap", "resettv", "reload"], Prices=[10], Vols=[1, 2], Kinds=["L"], MaxOrders=3, MaxOps=4 if q else 5,
+             need=("op_reload", "op_resettv", "has_trade"), timeout=300 if q else 1500)
     book_gen(ck, "gen_reload_off_new", Ops=["create", "cap", "place", "disable", "enable", "reload"], Prices=[10], Vols=[1, 2],
              NLevels=1 if q else 7, MaxOrders=2, MaxOps=4 if q else 5, trunc_every=40 if q else 4,
              need=("op_reload", "rejected_order", "unplaced_order", "trading_off"), timeout=300 if q else 1500)
     # the restore path (both sides rebuilt from the Active entries' stored keys) in the implementation-shaped model
     impl_mc(ck, "mc_impl_reload", Ops=["cap", "cancel", "modify", "reload"], Dts=[1], Discipline=True, Prices=[10, 11], Vols=[1, 2],
             ModPrices=[-1, 11], ModVols=["smaller", "larger"], MaxOrders=3, MaxOps=4 if q else 5, timeout=300 if q else 1200)
+    # multi-asset markets: snapshot reloads (string / file, compact / pretty) every ~10 calls of long random histories
+    mkt_traces(ck, "rand_market_reload", files=4 if q else 32, runs=3 if q else 6, ops=150, profile={"p_reload": 0.1})
     prof = {"discipline": True, "audit_every": 25, "w": {"reload": 3, "toggle": 0.4, "modify": 3}}
     ck.traces_stage("rand_reload", "record_book", prof, files=8 if q else 64, runs=2 if q else 4, ops=300)
     return ck.finish("model_checking", LEVEL_TEXT, RULE + "generated histories containing a reload + recorded reload calls",
@@ -340,6 +355,12 @@ def env_traces(ck, name, profile, files, runs, ops, hook=True, timeout=600):
                     consts={"MaxPrice": MAXPRICE, "UseHook": hook}, view="View", timeout=timeout)
 
 
+def mkt_traces(ck, name, files, runs, ops, profile=None, timeout=600):
+    """record-validate for direct operations on Market<1..4 assets>: EnvTrace.tla market events."""
+    ck.traces_stage(name, "record_market", profile or {}, files=files, runs=runs, ops=ops, trace_spec="EnvTrace",
+                    consts={"MaxPrice": MAXPRICE, "UseHook": True}, view="View", timeout=timeout)
+
+
 def sim_traces(ck, name, files, runs, steps, profile=None, timeout=900):
     """Complete simulations recorded from inside the real runners (recording agent set), validated by TLC against SimTrace.tla:
     loop structure, every step (MarketOps), every submission (C10), every member's instructions against the agent relations with
@@ -437,6 +458,8 @@ def c14(tier, seed):
     mkt_gen(ck, "gen_market2", Ops=["cap", "create", "place", "cancel", "settime", "resettv"], Prices=[10, 11], Kinds=["L"] if q else ["L", "M"],
             MaxOrders=2, MaxOps=4 if q else 5,
             need=("ops_on_two_assets", "has_trade", "create_rejected"), timeout=400 if q else 1800)
+    mkt_gen(ck, "gen_market2_reload_resettv", Ticks=(1, 1), Ops=["cap", "resettv", "reload"], Kinds=["L"], Prices=[10], Vols=[1, 2], MaxOrders=2, MaxOps=4,
+            need=("ops_on_two_assets", "op_reload", "has_trade"), timeout=400 if q else 1800)
     mkt_gen(ck, "gen_market2_modify_toggle", Ops=["cap", "modify", "event", "disable", "enable", "reload"], Kinds=["L"], ModPrices=[-1, 12],
             ModVolsAbs=[-1, 1], MaxOrders=2, MaxOps=4, trunc_every=200 if q else 20,
             need=("ops_on_two_assets", "trading_toggled", "op_modify", "op_reload"), timeout=400 if q else 1800)
@@ -451,6 +474,8 @@ def c14(tier, seed):
     # shuffled batches across assets
     env_gen(ck, "gen_menv_assets", kind="menv", seeds=8 if q else 32, Ticks=(1, 2), Ops=["new", "cancel", "step"], Kinds=["L", "M"], Prices=[10, 12],
             MaxSubmits=3 if q else 4, MaxBatch=3, MaxSteps=2, MaxOrders=2, need=("schedule_matters", "has_trade"), timeout=400 if q else 1800)
+    # long random histories of direct operations on markets of 1..4 assets (per-asset ticks, reloads, toggles)
+    mkt_traces(ck, "rand_market", files=6 if q else 48, runs=3 if q else 6, ops=200)
     env_traces(ck, "rand_menv_assets", {"kind": "menv", "assets": [2, 3, 4], "ticks": [1, 2, 3, 5], "max_batch": 16, "p_step": 0.08}, files=6 if q else 48,
                runs=3 if q else 6, ops=250)
     env_traces(ck, "rand_menv_assets_inferred", {"kind": "menv", "assets": [2, 3], "ticks": [1, 2], "max_batch": 7, "p_step": 0.15}, files=4 if q else 32,
@@ -768,6 +793,9 @@ def c18(tier, seed):
     # long random call sequences through the Python OrderBook, validated by TLC against the same trace specification
     # as the Rust recorder's (BookTrace.tla, Python clauses)
     py_traces(ck, "py_rand_book", "book", files=4 if q else 32, runs=3 if q else 6, ops=150)
+    # StepEnv driven by the Python runner bourse.step_sim.run with (wrapped) RandomAgent members: loop structure, the
+    # environment's behaviour and the Python RandomAgent relation, validated by TLC (PyTrace.tla)
+    py_traces(ck, "py_runner_sims", "sim", files=4 if q else 32, runs=4 if q else 8, ops=14 if q else 40)
     return ck.finish("model_checking", LEVEL_TEXT, PY_RULE + "paths with at least one trade",
                      ("py_book_calls.has_trade", "py_book_toggle_snapshots.has_trade", "py_env_calls.has_trade"))
 
